@@ -41,8 +41,9 @@ pub fn header_fields(h: &MessageHeader) -> String {
     });
     let call = guarded(|| hex_of_bytes(h.callsign().as_bytes()));
     let nat = guarded(|| if h.is_national() { "1".to_owned() } else { "0".to_owned() });
+    let orig = guarded(|| hex_of_bytes(format!("{:?}", h.originator()).as_bytes()));
     format!(
-        "{} {} {} org={} evt={} locs={} dur={} iss={} call={} nat={}",
+        "{} {} {} org={} evt={} locs={} dur={} iss={} call={} nat={} orig={}",
         text,
         h.parity_error_count(),
         h.voting_byte_count(),
@@ -52,7 +53,8 @@ pub fn header_fields(h: &MessageHeader) -> String {
         dur,
         iss,
         call,
-        nat
+        nat,
+        orig
     )
 }
 
